@@ -2016,3 +2016,331 @@ func ruleRefuseClean(p *Prog, r *RuleResult) {
 	}
 	r.floor(6, nop, "bitstream operations")
 }
+
+// R-WORD-BUF ------------------------------------------------------------------------------------------------------
+
+func init() {
+	register("R-WORD-BUF", "the bitstreams' internal buffers hold a whole number of 64-bit words (the bulk read/write paths treat a partial word as the end of the stream): the constructors reject or round any other size", false, ruleWordBuf)
+}
+
+func ruleWordBuf(p *Prog, r *RuleResult) {
+	n := 0
+	for _, f := range p.ModFns {
+		if p.Rel(f) != "bitstream" || f.Signature.Recv() != nil || f.Parent() != nil {
+			continue
+		}
+		res := f.Signature.Results()
+		if res.Len() == 0 {
+			continue
+		}
+		rn := namedOf(res.At(0).Type())
+		if rn == nil || (rn.Obj().Name() != "DefaultInputBitStream" && rn.Obj().Name() != "DefaultOutputBitStream") {
+			continue
+		}
+		eachInstr(f, func(i ssa.Instruction) {
+			st, ok := i.(*ssa.Store)
+			if !ok {
+				return
+			}
+			fa, ok := st.Addr.(*ssa.FieldAddr)
+			if !ok || namedOf(fa.X.Type()) != rn || !isByteSlice(st.Val.Type()) {
+				return
+			}
+			var mk ssa.Instruction
+			var lenv ssa.Value
+			if m, ok := st.Val.(*ssa.MakeSlice); ok {
+				mk, lenv = m, stripConv(m.Len)
+			} else if hc, ok := st.Val.(*ssa.Call); ok {
+				// allocated by a same-package helper that makes a slice of the length it is given
+				if h := hc.Call.StaticCallee(); h != nil && h.Blocks != nil && FnPkg(h) == FnPkg(f) {
+					eachInstr(h, func(j ssa.Instruction) {
+						if hm, ok := j.(*ssa.MakeSlice); ok && isByteSlice(hm.Type()) {
+							if hp, ok := stripConv(hm.Len).(*ssa.Parameter); ok {
+								for k2, q := range h.Params {
+									if q == hp && k2 < len(hc.Call.Args) {
+										mk, lenv = hc, stripConv(hc.Call.Args[k2])
+									}
+								}
+							}
+						}
+					})
+				}
+			}
+			if mk == nil {
+				return
+			}
+			n++
+			key := p.FnName(f) + "#buffer"
+			// constant size
+			if c, ok := constInt(lenv); ok {
+				if c%8 == 0 {
+					r.ok(fmt.Sprintf("%s: constant size %d is a multiple of 8", key, c), p.IPos(mk))
+				} else {
+					r.fail(key, p.IPos(mk), fmt.Sprintf("the internal buffer has the constant size %d, not a multiple of 8", c))
+				}
+				return
+			}
+			_ = lenv
+			// rounded: x &^ 7, x & -8, (x >> 3) << 3
+			if bo, ok := lenv.(*ssa.BinOp); ok {
+				if c, okc := constInt(bo.Y); okc {
+					if (bo.Op == token.AND_NOT && c == 7) || (bo.Op == token.AND && c == -8) || (bo.Op == token.SHL && c >= 3) || (bo.Op == token.MUL && c%8 == 0) {
+						r.ok(key+": the size is rounded to a multiple of 8", p.IPos(mk))
+						return
+					}
+				}
+			}
+			par, isPar := lenv.(*ssa.Parameter)
+			if !isPar {
+				r.note("%s at %s: the buffer size is neither a parameter, a constant nor a rounded value (NOT DECIDED)", key, p.IPos(mk))
+				return
+			}
+			// a dominating test of (par & 7) / (par % 8) against 0 with the allocation on the zero side
+			okT := false
+			for _, b := range f.Blocks {
+				ifi := blockIf(b)
+				if ifi == nil {
+					continue
+				}
+				atom, pos := condAtom(ifi.Cond)
+				cmp, ok := atom.(*ssa.BinOp)
+				if !ok || (cmp.Op != token.EQL && cmp.Op != token.NEQ) {
+					continue
+				}
+				z, okz := constInt(cmp.Y)
+				inner, oki := stripConv(cmp.X).(*ssa.BinOp)
+				if !okz || z != 0 || !oki || stripConv(inner.X) != ssa.Value(par) {
+					continue
+				}
+				c, okc := constInt(inner.Y)
+				if !okc || !((inner.Op == token.AND && c == 7) || (inner.Op == token.REM && c == 8)) {
+					continue
+				}
+				zeroEdge := edge{b, succFor(pos, cmp.Op == token.EQL)}
+				if edgeDominates(f, zeroEdge, mk.Block()) {
+					okT = true
+				}
+			}
+			// ... or the test sits in a validation helper whose error the constructor checks before allocating
+			if !okT {
+				eachInstr(f, func(j ssa.Instruction) {
+					vc, ok := j.(*ssa.Call)
+					if !ok {
+						return
+					}
+					h := vc.Call.StaticCallee()
+					if h == nil || h.Blocks == nil || FnPkg(h) != FnPkg(f) {
+						return
+					}
+					pidx := -1
+					for k2, a := range vc.Call.Args {
+						if stripConv(a) == ssa.Value(par) {
+							pidx = k2
+						}
+					}
+					if pidx < 0 || pidx >= len(h.Params) {
+						return
+					}
+					// inside the helper: (param & 7) / (param % 8) compared with 0, non-zero side returns an error
+					rejects := false
+					for _, hb := range h.Blocks {
+						hi := blockIf(hb)
+						if hi == nil {
+							continue
+						}
+						atom, pos := condAtom(hi.Cond)
+						cmp, ok := atom.(*ssa.BinOp)
+						if !ok || (cmp.Op != token.EQL && cmp.Op != token.NEQ) {
+							continue
+						}
+						z, okz := constInt(cmp.Y)
+						inner, oki := stripConv(cmp.X).(*ssa.BinOp)
+						if !okz || z != 0 || !oki || stripConv(inner.X) != ssa.Value(h.Params[pidx]) {
+							continue
+						}
+						c, okc := constInt(inner.Y)
+						if !okc || !((inner.Op == token.AND && c == 7) || (inner.Op == token.REM && c == 8)) {
+							continue
+						}
+						nz := hb.Succs[succFor(pos, cmp.Op == token.NEQ)]
+						allErr := true
+						for rb := range reach(nz, nil, nil) {
+							if ret, ok := rb.Instrs[len(rb.Instrs)-1].(*ssa.Return); ok && rb != h.Recover {
+								if len(ret.Results) == 0 || retMayBeNil(ret, len(ret.Results)-1) {
+									allErr = false
+								}
+							}
+						}
+						if allErr {
+							rejects = true
+						}
+					}
+					if !rejects {
+						return
+					}
+					// in the constructor: the helper's error is tested and the allocation is on the nil side
+					ev, has := errResult(vc)
+					if !has || ev == nil {
+						return
+					}
+					for _, b := range f.Blocks {
+						if ifi := blockIf(b); ifi != nil {
+							if x, nonNil, ok := nilTest(ifi.Cond); ok && x == ev {
+								if edgeDominates(f, edge{b, 1 - nonNil}, mk.Block()) {
+									okT = true
+								}
+							}
+						}
+					}
+				})
+			}
+			if okT {
+				r.ok(key+": a size that is not a multiple of 8 is rejected before the buffer is made", p.IPos(mk))
+			} else {
+				r.fail(key, p.IPos(mk), fmt.Sprintf("%s sizes the internal buffer directly from its parameter without rejecting (or rounding) a size that is not a multiple of 8: every refill then ends in a partial 64-bit word in the middle of the stream, which the unaligned bulk paths take for the end of the stream – spurious \"no more data\" failures or wrong bytes for such a size", p.FnName(f)))
+			}
+		})
+	}
+	r.floor(2, n, "bitstream buffer allocations in constructors")
+}
+
+// R-FLUSH-STEP ----------------------------------------------------------------------------------------------------
+
+func init() {
+	register("R-FLUSH-STEP", "the output bitstream accounts for what it handed to the sink before it hands over more: a sink write inside a loop is followed, within the iteration, by the update of the flushed-bits counter or cursor", false, ruleFlushStep)
+}
+
+func ruleFlushStep(p *Prog, r *RuleResult) {
+	n := 0
+	var k keyer
+	for _, f := range p.ModFns {
+		if p.Rel(f) != "bitstream" || f.Signature.Recv() == nil {
+			continue
+		}
+		rn := namedOf(f.Signature.Recv().Type())
+		if rn == nil || rn.Obj().Name() != "DefaultOutputBitStream" {
+			continue
+		}
+		eachInstr(f, func(i ssa.Instruction) {
+			c := callOf(i)
+			if c == nil || !c.IsInvoke() || c.Method.Name() != "Write" || len(c.Args) != 1 {
+				return
+			}
+			if recv := namedOf(c.Value.Type()); recv == nil || recv.Obj().Pkg() == nil || recv.Obj().Pkg().Path() != "io" {
+				return
+			}
+			n++
+			key := k.key(p.FnName(f), "sink-write")
+			if !inCycle(i.Block()) {
+				r.ok(key+": one sink write per call, accounted before the function returns or not at all", p.IPos(i))
+				return
+			}
+			// stores to integer fields of the receiver (flushed-bits counter, cursor)
+			avoid := map[ssa.Instruction]bool{}
+			eachInstr(f, func(j ssa.Instruction) {
+				if st, ok := j.(*ssa.Store); ok {
+					if fa, ok := st.Addr.(*ssa.FieldAddr); ok && namedOf(fa.X.Type()) == rn {
+						if b, ok := fieldVarOfAddr(fa).Type().Underlying().(*types.Basic); ok && b.Info()&types.IsInteger != 0 {
+							avoid[j] = true
+						}
+					}
+				}
+			})
+			if pathAvoiding(i.Block(), instrIndex(i)+1, i, avoid) {
+				r.fail(key+"#unaccounted", p.IPos(i), fmt.Sprintf("%s writes to the sink in a loop and can come back to the write without having updated any counter or cursor of the bitstream: when a later write of the loop fails, the earlier pieces are at the sink but the state says nothing was flushed, so a retry (Close is retryable) sends them again – the sink receives more bytes than Written() reports and the stream no longer decodes", p.FnName(f)))
+			} else {
+				r.ok(key+": every iteration accounts for what it wrote before the next write", p.IPos(i))
+			}
+		})
+	}
+	r.floor(1, n, "sink writes of the output bitstream")
+}
+
+// R-HINT-READER ---------------------------------------------------------------------------------------------------
+
+func init() {
+	register("R-HINT-READER", "the original size recorded in the header is advisory on the reading side too: no error of the read path is decided by a comparison with it", false, ruleHintReader)
+}
+
+func ruleHintReader(p *Prog, r *RuleResult) {
+	rh := p.Method("io", "Reader", "readHeader")
+	rt := namedOf(rh.Signature.Recv().Type())
+	// the hint field: the int64 field of the Reader that the header parser fills from a ReadBits of run-time width
+	var hint *types.Var
+	for _, g := range append([]*ssa.Function{rh}, p.helperClosure(rh)...) {
+		eachInstr(g, func(i ssa.Instruction) {
+			st, ok := i.(*ssa.Store)
+			if !ok {
+				return
+			}
+			fa, ok := st.Addr.(*ssa.FieldAddr)
+			if !ok || namedOf(fa.X.Type()) != rt {
+				return
+			}
+			if c, ok := stripConv(st.Val).(*ssa.Call); ok {
+				if o := calleeObj(&c.Call); o != nil && o.Name() == "ReadBits" {
+					args := c.Call.Args
+					if _, isConst := args[len(args)-1].(*ssa.Const); !isConst {
+						hint = fieldVarOfAddr(fa)
+					}
+				}
+			}
+		})
+	}
+	if hint == nil {
+		undecided("R-HINT-READER: the header field read with a run-time width (original size) was not found in readHeader")
+	}
+	inHdr := map[*ssa.Function]bool{rh: true}
+	for _, g := range p.helperClosure(rh) {
+		inHdr[g] = true
+	}
+	s := resolveSide(p, "Reader")
+	seen := map[*ssa.Function]bool{}
+	nfn, ntest := 0, 0
+	var k keyer
+	for _, root := range []*ssa.Function{p.Method("io", "Reader", "Read"), s.entry, s.parent} {
+		for _, g := range append([]*ssa.Function{root}, p.helperClosure(root)...) {
+			if seen[g] || inHdr[g] || p.Rel(g) != "io" {
+				continue
+			}
+			seen[g] = true
+			nfn++
+			for _, b := range g.Blocks {
+				ifi := blockIf(b)
+				if ifi == nil {
+					continue
+				}
+				atom, _ := condAtom(ifi.Cond)
+				bo, ok := atom.(*ssa.BinOp)
+				if !ok {
+					continue
+				}
+				if fieldVarOfLoad(stripConv(bo.X)) != hint && fieldVarOfLoad(stripConv(bo.Y)) != hint {
+					continue
+				}
+				ntest++
+				bad := false
+				for _, rb := range g.Blocks {
+					ret, ok := rb.Instrs[len(rb.Instrs)-1].(*ssa.Return)
+					if !ok || rb == g.Recover || len(ret.Results) == 0 {
+						continue
+					}
+					last := len(ret.Results) - 1
+					if !isErrType(ret.Results[last].Type()) || retMayBeNil(ret, last) {
+						continue
+					}
+					if b.Dominates(rb) && b != rb {
+						bad = true
+						r.fail(k.key(p.FnName(g), "hint-decides-error"), p.IPos(ifi), fmt.Sprintf("%s returns an error (at %s) only behind a comparison with the original size recorded in the header: that size is the writer's advisory hint (the writer accepts any value and any amount of data), so a valid stream whose hint differs from its content – a Writer closed without data, or with less than announced – fails to read", p.FnName(g), p.IPos(ret)))
+						break
+					}
+				}
+				if !bad {
+					r.ok(fmt.Sprintf("%s: a comparison with the recorded size decides no error", p.FnName(g)), p.IPos(ifi))
+				}
+			}
+		}
+	}
+	r.ok(fmt.Sprintf("%d functions of the read path scanned, %d comparisons with the recorded original size", nfn, ntest), "-")
+	r.floor(2, nfn, "functions of the read path")
+}
